@@ -42,7 +42,7 @@ def prob_list(draw, family, k):
 # ------------------------------------------------------------------ values
 LOWER = 'abcxyz' + 'éñ' + 'яжд' + 'ωλ' + 'ß\ufb01'      # incl. letters whose upper-case form is longer (ß -> SS, ﬁ -> FI)
 DIGITS = '0123456789'
-OTHER = '!@#$.-_ *' + '€' + '\U0001F600' + '§'
+OTHER = '!@#$.-_ *' + '€' + '\U0001F600' + '§' + '%' + '\u00ad' + '\x7f'       # incl. % (interpolation syntax), soft hyphen and DEL (not printable)
 KEYB = 'qwe123asd!@#zxc'
 YEARS = ['19%02d' % i for i in range(60, 100, 3)] + ['20%02d' % i for i in range(0, 25, 2)]
 CONTEXT = [';p', ':p', '*0*', '#1', 'No.1', 'no.1', 'No.', 'i<3', 'I<3', '<3', 'Mr.', 'mr.', 'MR.', 'MS.', 'Ms.',
@@ -112,7 +112,7 @@ def variable(draw, name, family, max_groups=5, max_values=3):
 def omen_models(draw, max_ngram=3, alpha_max=3):
     """Small OMEN model in the loader's format (every IP / CP n-gram listed once)."""
     ngram = draw(st.integers(2, max_ngram))
-    alpha = draw(st.lists(st.sampled_from(list('abcdé1я')), min_size=2, max_size=alpha_max, unique=True))
+    alpha = draw(st.lists(st.sampled_from(list('abcdé1я%')), min_size=2, max_size=alpha_max, unique=True))
     ctx_len = ngram - 1
     import itertools
     ctxs = [''.join(t) for t in itertools.product(alpha, repeat=ctx_len)]
